@@ -301,7 +301,6 @@ def handleRun (args : List String) : Option String :=
           some s!"ok C[{cs}] S[{ss}] W[{ws}] R[{rs}] B[{bs}]"
   | _ => none
 
-/-- `c04.order` → the statement order of the grading methods as the model mirrors it (see `Props/C04.lean`) -/
 def handle (op : String) (args : List String) : Option String :=
   match op with
   | "c04.run" => handleRun args
